@@ -2293,6 +2293,87 @@ def _(c, parent, keep):
     return [tc.mutations.num_rows, summarise(r), int(sum(tc.mutations.parent))]
 
 
+@op("tc.stale_index", [("how", "raw")], needs="tc")
+def _(c, how):
+    """index built, THEN the edge table grown / shrunk / replaced without a re-index: the stored
+    index arrays keep their old length (the library's only protection is the num_edges comparison
+    of tsk_table_collection_has_index).  Returns "indexed_edges,edges_now,has_index"."""
+    import numpy as np
+    t = c.tc
+    if how.startswith("empty+"):
+        t.edges.clear()
+    t.build_index()
+    old = len(t.edges)
+    root = len(t.nodes) - 1
+    L = t.sequence_length
+    if how.startswith(("grow", "empty+")):
+        k = int(how.split("+")[1]) if "+" in how else int(how[4:])
+        for j in range(k):
+            t.edges.add_row(0, L, root, j % max(root, 1))
+    elif how == "append_self":
+        d = t.edges.asdict()
+        d.pop("metadata_schema", None)
+        t.edges.append_columns(**d)
+    elif how == "truncate":
+        t.edges.truncate(max(old - 1, 0))
+    elif how == "keep_rows":
+        t.edges.keep_rows(np.arange(old) % 2 == 0)
+    elif how == "clear":
+        t.edges.clear()
+    elif how == "set_columns_more":
+        d = t.edges.asdict()
+        d.pop("metadata_schema", None)
+        for k_ in ("left", "right", "parent", "child"):
+            d[k_] = np.concatenate([d[k_], d[k_][:2]])
+        d["metadata_offset"] = np.concatenate([d["metadata_offset"], d["metadata_offset"][-1:].repeat(min(2, old))])
+        t.edges.set_columns(**d)
+    elif how == "same_count":
+        if old:
+            row = t.edges[old - 1]
+            t.edges.truncate(old - 1)
+            t.edges.append(row)
+    else:
+        raise ValueError(how)
+    return "%d,%d,%d" % (old, len(t.edges), int(t.has_index()))      # a string survives summarise()
+
+
+@op("tc.load_tables", [("build_indexes", "raw")], needs="tc")
+def _(c, build_indexes):
+    import tskit
+    ts = tskit.TreeSequence.load_tables(c.tc, build_indexes=build_indexes)
+    return [ts.num_edges, ts.num_trees]
+
+
+STALE_HOWS = ["grow1", "grow3", "grow64", "empty+1", "empty+65", "append_self", "truncate", "keep_rows", "clear",
+              "set_columns_more", "same_count"]
+COPY_USERS = [
+    [{"op": "tc.subset", "args": {"nodes": ["0", "1"], "opts": {}}}],
+    [{"op": "tc.subset", "args": {"nodes": ["0", "n-1"], "opts": {"reorder_populations": False, "remove_unreferenced": False}}}],
+    [{"op": "tc.simplify", "args": {"samples": ["0", "1"], "opts": {}}}],
+    [{"op": "tc.simplify", "args": {"samples": None, "opts": {"keep_unary": True}}}],
+    [{"op": "tc.union_self", "args": {"mapping": {}, "opts": {"check_shared_equality": True}}}],
+    [{"op": "tc.union_other", "args": {"mapping": {"fill": "-1"}, "opts": {"check_shared_equality": False}}}],
+    [{"op": "tc.call", "args": {"m": "canonicalise"}}],
+    [{"op": "tc.load_tables", "args": {"build_indexes": False}}],
+    [{"op": "tc.load_tables", "args": {"build_indexes": True}}],
+    [{"op": "tc.delete_older", "args": {"t": "mid"}}],
+    [{"op": "tc.ibd_all", "args": {"opts": {}}}],
+    [{"op": "tc.link_ancestors", "args": {"samples": ["0", "1"], "ancestors": ["n-1"]}}],
+    [{"op": "tc.call", "args": {"m": "compute_mutation_parents"}}],
+    [{"op": "tc.call", "args": {"m": "compute_mutation_times"}}],
+    [{"op": "tc.call", "args": {"m": "trim"}}],
+    [{"op": "tc.keep_intervals", "args": {"iv": [["0", "mid"]], "opts": {}}}],
+    [{"op": "tc.call", "args": {"m": "copy"}}, {"op": "tc.call", "args": {"m": "has_index"}}],
+    [{"op": "tc.call", "args": {"m": "dump_load"}}],
+    [{"op": "tc.call", "args": {"m": "asdict_fromdict"}}],
+    [{"op": "tc.call", "args": {"m": "pickle"}}],
+    [{"op": "tc.call", "args": {"m": "tree_sequence"}}, {"op": "probe.tree", "args": {}}],
+    [{"op": "tc.call", "args": {"m": "sort"}}, {"op": "tc.call", "args": {"m": "tree_sequence"}}],
+    [{"op": "tc.call", "args": {"m": "deduplicate_sites"}}, {"op": "tc.call", "args": {"m": "sort_individuals"}}],
+    [{"op": "tc.call", "args": {"m": "drop_index"}}, {"op": "tc.call", "args": {"m": "build_index"}}],
+]
+
+
 # ----------------------------------------------------------------------------------
 # bases
 # ----------------------------------------------------------------------------------
@@ -2687,6 +2768,17 @@ def model_term(k, st, r, obs, case):
         if len(ix["ins"]) == ne and len(ix["rem"]) == ne:
             return "verdict_implies (verdict_of (check_index_entry true true %s %s %s %s)) %s" % (
                 cz(ne), clist(ix["ins"]), clist(ix["rem"]), _alloc(ne), v)
+    if k >= 1 and case["steps"][k - 1]["op"] == "tc.stale_index" and opn in (
+            "tc.subset", "tc.simplify", "tc.union_self", "tc.union_other", "tc.load_tables") or (
+            k >= 1 and case["steps"][k - 1]["op"] == "tc.stale_index" and opn == "tc.call"
+            and a.get("m") == "canonicalise"):
+        prev = obs["steps"][k - 1]
+        if prev and prev[0] == "ok" and isinstance(prev[1], str) and prev[1].count(",") == 2:
+            indexed, now = [int(x) for x in prev[1].split(",")[:2]]
+            # tsk_table_collection_copy: what the guard lets through is memcpy'd; an overrun predicted
+            # by the model (guard without the num_edges comparison) must be the sanitizer report
+            return "verdict_implies (match copy_indexes C09_copy_checks_has_index %s %s with OOB => VOOB | _ => VOk end) %s" % (
+                cz(indexed), cz(now), v)
     if opn.startswith(TABLE_FIRST_ONLY) and (k != 0 or case["base"]["kind"] != "valid"):
         return None                      # tables drift along a sequence; arbitrary tables are monitored only
     ts = env.get("ts")
@@ -3669,12 +3761,26 @@ class BadState(Monitor):
 
 class Indexes(Monitor):
     """User-supplied table indexes: each of the two arrays INDEPENDENTLY carries one boundary
-    id; then everything that checks or uses the index."""
+    id; then everything that checks or uses the index.  Stale-index histories: index built, edge
+    table then grown / shrunk / replaced without re-index, then every entry point that copies or
+    reads the tables inside the C library."""
     name = "indexes"
 
     def generate(self, rng, tier):
         descs = valid_bases(rng, 5 if tier == "quick" else 20, max_sites=4, metadata=False)
         bases = [base_valid(rng, d) for d in descs]
+        for _rep in range(1 if tier == "quick" else 3):
+            for how in STALE_HOWS:
+                for u in COPY_USERS:
+                    steps = [{"op": "tc.stale_index", "args": {"how": how}, "expect": "any"}]
+                    steps += json.loads(json.dumps(u))
+                    for st in steps[1:]:
+                        st["expect"] = "any"
+                    if how not in ("same_count",) and steps[1]["op"] == "tc.load_tables" \
+                            and steps[1]["args"]["build_indexes"] is False:
+                        steps[1]["expect"] = "raise"      # a stale index is no index: must be refused
+                    steps += [{"op": "probe.tc", "args": {}}]
+                    yield {"base": rng.choice(bases), "steps": steps}
         users = [[{"op": "tc.call", "args": {"m": "tree_sequence"}}, {"op": "probe.tree", "args": {}}],
                  [{"op": "tc.call", "args": {"m": "compute_mutation_parents"}}],
                  [{"op": "tc.call", "args": {"m": "compute_mutation_times"}}],
